@@ -26,4 +26,18 @@ PROPS = {
                  "lists of 2^32 or more leaves (128 GiB) are outside the model"],
         assumes=["leaf lists shorter than 2^32"],
     ),
+    "C16": dict(
+        n_quick=700, n_thorough=12000, audit=12, audit_maxlen=1500, release=True,
+        rule="random builder programs (0..12 ops: push_int over the whole i64 range incl. i64::MIN per profile, push_scriptint, push_slice with lengths on both "
+             "sides of 75/76, 255/256, 65535/65536, push_opcode incl. the five foldable ones, push_verify) + fixed boundary programs; script numbers +-2^k+-1 and random, "
+             "read_scriptint on all 1-byte and sampled 0..6-byte strings; scripts: exact templates, near misses, witness version x program length grid, PUSHDATA edge cases; "
+             "sweep: for each template family every length 0..45 x leading opcode (24 interesting + random in quick, all 256 in thorough) x ALL 256 push-length bytes per case; "
+             "distinct = distinct case text; non-trivial = builder program with >= 1 push and >= 1 opcode, or a script within distance 1 of a template",
+        trusted=["i64 values are Z with an explicit range premise; `-i64::MIN` is modelled per profile (Debug panics, Release wraps) and the harness runs both profiles",
+                 "the builder's Vec<u8> is modelled as a reversed list; data slices of 2^32 bytes or more (push_slice panic) are in the theorems but not in the correspondence runs",
+                 "opcodes::All::classify is modelled for ClassifyContext::Legacy only (the context Instructions::next uses); opcode byte values, the Ordinary list and MAX_SCRIPT_SIZE are regenerated from the Rust text",
+                 "Address::from_script is modelled on the payload (network parameters and blinding key are passed through unchanged by the code); the address text codec is C06: "
+                 "C16_from_script_text is stated relative to C06's round-trip theorem as an explicit premise, while the harness checks the real Display/FromStr end to end"],
+        assumes=["integers handed to the builder are i64 values", "C06 (address text round trip) for the clause 'its text form parses back to the same address'"],
+    ),
 }
